@@ -1,10 +1,444 @@
-//! Workload W2 (stub, replaced below)
+//! Workload W2: container-filling programs for C07.
+//!
+//! Valid RSSL whose only purpose is to put several order-sensitive elements into every hash
+//! container that is iterated on the way to the output (name generation scopes and names,
+//! usage analysis keys, MSL implicit globals, MSL helper sets, inline constant sizes, enum
+//! values). Programs are assembled from independent feature blocks; every block kind is
+//! validated once per process against the real front end and dropped (with a note) if it no
+//! longer compiles, so a syntax change upstream cannot raise an alarm.
+
 use crate::exec::{Target, TaskSpec};
 use crate::prng::Rng;
 use crate::simfs::FsSpec;
-pub fn scenario(_rng: &mut Rng, i: u64) -> (String, FsSpec, TaskSpec) {
-    let fs = crate::plan::snippet_fs("static const int x = 1;\n");
-    let mut t = TaskSpec::compile(0, "test.rssl", Target::Dx);
-    t.no_pipeline = true;
-    (format!("W2:stub#{i}"), fs, t)
+use std::sync::OnceLock;
+
+const NAMES: &[&str] = &[
+    "f", "g", "h", "calc", "eval", "mix2", "blend", "apply", "step2", "fold", "scan", "emit",
+];
+const VALUE_NAMES: &[&str] = &[
+    "v", "w", "acc", "total", "count", "state", "seed", "mask", "bias", "gain", "level", "phase",
+];
+const MSL_RESERVED: &[&str] = &[
+    "vertex", "fragment", "kernel", "device", "constant", "thread", "threadgroup", "metal",
+];
+const SCALARS: &[&str] = &["int", "uint", "float"];
+
+pub const BLOCK_KINDS: &[&str] = &[
+    "namespaces",
+    "overloads",
+    "locals",
+    "enums",
+    "templates",
+    "globals_graph",
+    "resources",
+    "cbuffers",
+    "bind_groups",
+    "wave",
+    "call_ring",
+];
+
+fn pick<'a>(rng: &mut Rng, xs: &[&'a str]) -> &'a str {
+    xs[rng.below(xs.len() as u64) as usize]
+}
+
+fn distinct<'a>(rng: &mut Rng, xs: &[&'a str], lo: u64, hi: u64) -> Vec<&'a str> {
+    let n = rng.range(lo, hi) as usize;
+    let mut v: Vec<&str> = xs.to_vec();
+    rng.shuffle(&mut v);
+    v.truncate(n.min(xs.len()));
+    v
+}
+
+/// One feature block: declarations, plus statements for the body of the entry function that use
+/// them. `u` makes every top-level name of the block unique within the program.
+pub fn block(kind: &str, rng: &mut Rng, u: usize) -> (String, String) {
+    let mut decl = String::new();
+    let mut body = String::new();
+    match kind {
+        "namespaces" => {
+            // sibling and nested namespaces with equal member names
+            let n = rng.range(2, 4) as usize;
+            let members = distinct(rng, NAMES, 2, 3);
+            let vals = distinct(rng, VALUE_NAMES, 2, 2);
+            for i in 0..n {
+                decl.push_str(&format!("namespace NS{u}_{i} {{\n"));
+                for v in &vals {
+                    decl.push_str(&format!("static int {v};\n"));
+                }
+                for m in &members {
+                    decl.push_str(&format!(
+                        "int {m}(int x) {{ return x + {} + {i}; }}\n",
+                        vals[0]
+                    ));
+                }
+                if rng.chance(1, 2) {
+                    decl.push_str(&format!("namespace Inner {{\nint {}(int x) {{ return x; }}\nstatic int {};\n}}\n", members[0], vals[1]));
+                }
+                decl.push_str("}\n");
+                for m in &members {
+                    body.push_str(&format!("sink += NS{u}_{i}::{m}({i});\n"));
+                }
+            }
+        }
+        "overloads" => {
+            // overload sets next to globals called name_N: generated suffixes collide with them
+            let base = pick(rng, NAMES);
+            let name = format!("{base}{u}");
+            let k = rng.range(2, 4) as usize;
+            let tys = ["int", "float", "uint", "float2"];
+            for (i, ty) in tys.iter().enumerate().take(k) {
+                decl.push_str(&format!("int {name}({ty} x) {{ return {i}; }}\n"));
+            }
+            let c = rng.range(1, 3) as usize;
+            let mut idx: Vec<usize> = (0..4).collect();
+            rng.shuffle(&mut idx);
+            for i in idx.into_iter().take(c) {
+                decl.push_str(&format!("static int {name}_{i};\n"));
+                body.push_str(&format!("sink += {name}_{i};\n"));
+            }
+            body.push_str(&format!("sink += {name}((int)1) + {name}(1.0f);\n"));
+        }
+        "locals" => {
+            // locals that clash with globals, with each other across functions and with words
+            // the targets reserve
+            let g = distinct(rng, VALUE_NAMES, 3, 3);
+            for v in &g {
+                decl.push_str(&format!("static int {v}{u};\n"));
+            }
+            decl.push_str(&format!("int locals{u}(int p) {{\n"));
+            for r in distinct(rng, MSL_RESERVED, 2, 4) {
+                decl.push_str(&format!("int {r} = p; p += {r};\n"));
+                decl.push_str(&format!("int {r}_0 = p; p += {r}_0;\n"));
+            }
+            for v in &g {
+                decl.push_str(&format!("int {v}{u}_0 = {v}{u}; p += {v}{u}_0;\n"));
+            }
+            decl.push_str("return p;\n}\n");
+            body.push_str(&format!("sink += locals{u}(1);\n"));
+        }
+        "enums" => {
+            let n = rng.range(4, 12) as usize;
+            decl.push_str(&format!("enum E{u} {{\n"));
+            let mut names: Vec<String> = (0..n).map(|i| format!("V{u}_{}", (i * 7 + 3) % 31)).collect();
+            names.dedup();
+            for (i, v) in names.iter().enumerate() {
+                if rng.chance(1, 3) {
+                    decl.push_str(&format!("{v} = {},\n", i * 3));
+                } else {
+                    decl.push_str(&format!("{v},\n"));
+                }
+            }
+            decl.push_str("};\n");
+            body.push_str(&format!("sink += (int)E{u}::{};\n", names[0]));
+            body.push_str(&format!("sink += (int)E{u}::{};\n", names[names.len() - 1]));
+        }
+        "templates" => {
+            let name = format!("tmpl{u}");
+            decl.push_str(&format!(
+                "template<typename T> T {name}(T a, T b) {{ return a + b; }}\n"
+            ));
+            for ty in distinct(rng, SCALARS, 2, 3) {
+                let lit = match ty {
+                    "int" => "1",
+                    "uint" => "1u",
+                    _ => "1.0f",
+                };
+                body.push_str(&format!("sink += (int){name}<{ty}>({lit}, {lit});\n"));
+            }
+        }
+        "globals_graph" => {
+            // static / groupshared globals used at the leaves of chain, diamond and fan-out call
+            // graphs: MSL threads them through every function on the way as implicit parameters
+            let n = rng.range(3, 8) as usize;
+            for i in 0..n {
+                match rng.below(3) {
+                    0 => decl.push_str(&format!("static int s{u}_{i};\n")),
+                    1 => decl.push_str(&format!("static float s{u}_{i};\n")),
+                    _ => decl.push_str(&format!("groupshared uint s{u}_{i};\n")),
+                }
+            }
+            for i in 0..n {
+                decl.push_str(&format!(
+                    "int leaf{u}_{i}() {{ s{u}_{i} = s{u}_{i} + 1; return (int)s{u}_{i}; }}\n"
+                ));
+            }
+            match rng.below(3) {
+                0 => {
+                    // chain
+                    decl.push_str(&format!("int mid{u}_0() {{ return leaf{u}_0(); }}\n"));
+                    for i in 1..n {
+                        decl.push_str(&format!(
+                            "int mid{u}_{i}() {{ return mid{u}_{}() + leaf{u}_{i}(); }}\n",
+                            i - 1
+                        ));
+                    }
+                    body.push_str(&format!("sink += mid{u}_{}();\n", n - 1));
+                }
+                1 => {
+                    // diamond
+                    let h = n / 2;
+                    let a: Vec<String> = (0..h).map(|i| format!("leaf{u}_{i}()")).collect();
+                    let b: Vec<String> = (h..n).map(|i| format!("leaf{u}_{i}()")).collect();
+                    decl.push_str(&format!("int left{u}() {{ return {}; }}\n", a.join(" + ")));
+                    decl.push_str(&format!("int right{u}() {{ return {}; }}\n", b.join(" + ")));
+                    decl.push_str(&format!(
+                        "int top{u}() {{ return left{u}() + right{u}() + leaf{u}_0(); }}\n"
+                    ));
+                    body.push_str(&format!("sink += top{u}();\n"));
+                }
+                _ => {
+                    // fan-out
+                    let all: Vec<String> = (0..n).map(|i| format!("leaf{u}_{i}()")).collect();
+                    decl.push_str(&format!("int fan{u}() {{ return {}; }}\n", all.join(" + ")));
+                    body.push_str(&format!("sink += fan{u}();\n"));
+                }
+            }
+        }
+        "resources" => {
+            // several object kinds with several intrinsic methods each: MSL helper sets
+            decl.push_str(&format!("const ByteAddressBuffer rb{u};\n"));
+            decl.push_str(&format!("const RWByteAddressBuffer rwb{u};\n"));
+            decl.push_str(&format!("const Texture2D<float4> tex{u};\n"));
+            decl.push_str(&format!("const RWTexture2D<float4> rwtex{u};\n"));
+            decl.push_str(&format!("const StructuredBuffer<uint> sb{u};\n"));
+            decl.push_str(&format!("const RWStructuredBuffer<uint> rwsb{u};\n"));
+            decl.push_str(&format!("const Buffer<float4> tb{u};\n"));
+            let mut uses: Vec<String> = vec![
+                format!("sink += (int)rb{u}.Load(0);"),
+                format!("sink += (int)rb{u}.Load2(0).x;"),
+                format!("sink += (int)rb{u}.Load3(0).x;"),
+                format!("sink += (int)rb{u}.Load4(0).x;"),
+                format!("rwb{u}.Store(0, 1u);"),
+                format!("rwb{u}.Store2(0, uint2(1u, 2u));"),
+                format!("sink += (int)rwb{u}.Load(4);"),
+                format!("sink += (int)tex{u}.Load(int3(0, 0, 0)).x;"),
+                format!("rwtex{u}[uint2(0, 0)] = float4(0, 0, 0, 0);"),
+                format!("sink += (int)sb{u}.Load(0);"),
+                format!("sink += (int)sb{u}[1];"),
+                format!("rwsb{u}[0] = 1u;"),
+                format!("sink += (int)tb{u}.Load(0).x;"),
+            ];
+            rng.shuffle(&mut uses);
+            let k = rng.range(5, uses.len() as u64) as usize;
+            for s in uses.into_iter().take(k) {
+                body.push_str(&s);
+                body.push('\n');
+            }
+        }
+        "cbuffers" => {
+            let n = rng.range(1, 3) as usize;
+            for i in 0..n {
+                decl.push_str(&format!("cbuffer CB{u}_{i} {{\n"));
+                for (j, v) in distinct(rng, VALUE_NAMES, 1, 4)
+                    .iter()
+                    .enumerate()
+                {
+                    let ty = ["int", "float4", "uint", "float2"][j % 4];
+                    decl.push_str(&format!("{ty} cb{u}_{i}_{v};\n"));
+                    if j == 0 {
+                        body.push_str(&format!("sink += cb{u}_{i}_{v};\n"));
+                    }
+                }
+                decl.push_str("}\n");
+            }
+        }
+        "bind_groups" => {
+            // BufferAddress globals in several bind groups: inline constant blocks under
+            // Vulkan + buffer addresses
+            let groups = rng.range(2, 4) as usize;
+            let mut order: Vec<usize> = (0..groups).collect();
+            rng.shuffle(&mut order);
+            for g in order {
+                for k in 0..rng.range(1, 2) {
+                    decl.push_str(&format!(
+                        "[[rssl::bind_group({g})]] const BufferAddress ba{u}_{g}_{k};\n"
+                    ));
+                    body.push_str(&format!("sink += (int)ba{u}_{g}_{k}.Load<uint>(0);\n"));
+                }
+            }
+        }
+        "call_ring" => {
+            // functions that call each other in a ring (forward declared), each touching a
+            // different global: transitive usage has to be closed over a cycle
+            let n = rng.range(2, 5) as usize;
+            for i in 0..n {
+                match rng.below(3) {
+                    0 => decl.push_str(&format!("const RWByteAddressBuffer ring_g{u}_{i};\n")),
+                    1 => decl.push_str(&format!("static uint ring_g{u}_{i};\n")),
+                    _ => decl.push_str(&format!("groupshared uint ring_g{u}_{i};\n")),
+                }
+            }
+            for i in 0..n {
+                decl.push_str(&format!("void ring{u}_{i}(uint n);\n"));
+            }
+            let mut order: Vec<usize> = (0..n).collect();
+            rng.shuffle(&mut order);
+            for i in order {
+                let next = (i + 1) % n;
+                let touch = format!("ring_touch{u}_{i}");
+                let _ = touch;
+                decl.push_str(&format!("void ring{u}_{i}(uint n) {{\n"));
+                decl.push_str(&format!("    ring_use{u}_{i}(n);\n"));
+                decl.push_str(&format!("    if (n > 0) ring{u}_{next}(n - 1);\n"));
+                // an extra chord makes the cycle structure richer
+                if n > 2 && rng.chance(1, 3) {
+                    let chord = (i + 2) % n;
+                    decl.push_str(&format!("    if (n > 1) ring{u}_{chord}(n - 2);\n"));
+                }
+                decl.push_str("}\n");
+            }
+            // the functions that touch the globals are declared before the ring uses them
+            let mut pre = String::new();
+            for i in 0..n {
+                pre.push_str(&format!("void ring_use{u}_{i}(uint n);\n"));
+            }
+            decl = format!("{pre}{decl}");
+            for i in 0..n {
+                // body differs by the kind of global: decided by looking at the declaration text
+                let is_buf = decl.contains(&format!("const RWByteAddressBuffer ring_g{u}_{i};"));
+                if is_buf {
+                    decl.push_str(&format!(
+                        "void ring_use{u}_{i}(uint n) {{ ring_g{u}_{i}.Store(0, n); }}\n"
+                    ));
+                } else {
+                    decl.push_str(&format!(
+                        "void ring_use{u}_{i}(uint n) {{ ring_g{u}_{i} = n; }}\n"
+                    ));
+                }
+            }
+            body.push_str(&format!("ring{u}_{}(3u);\n", rng.below(n as u64)));
+        }
+        "wave" => {
+            decl.push_str(&format!(
+                "uint wave{u}() {{ return WaveGetLaneCount() + WaveGetLaneIndex(); }}\n"
+            ));
+            decl.push_str(&format!("static uint ws{u};\n"));
+            decl.push_str(&format!(
+                "uint wave_outer{u}() {{ ws{u} = ws{u} + 1u; return wave{u}() + ws{u}; }}\n"
+            ));
+            body.push_str(&format!("sink += (int)wave_outer{u}();\n"));
+        }
+        _ => {}
+    }
+    (decl, body)
+}
+
+/// Assemble a program from blocks and wrap the uses into 1-3 pipelines
+pub fn program(kinds: &[&str], rng: &mut Rng) -> String {
+    let mut decls = String::new();
+    let mut bodies: Vec<String> = Vec::new();
+    for (u, k) in kinds.iter().enumerate() {
+        let (d, b) = block(k, &mut rng.sub_n(k, u as u64), u);
+        decls.push_str(&d);
+        bodies.push(b);
+    }
+    let mut out = decls;
+    let pipelines = rng.range(1, 3) as usize;
+    for p in 0..pipelines {
+        // every pipeline uses a (different) subset of the blocks
+        let mut body = String::from("int sink = 0;\n");
+        for (i, b) in bodies.iter().enumerate() {
+            if pipelines == 1 || (i + p) % 2 == 0 || rng.chance(1, 3) {
+                body.push_str(b);
+            }
+        }
+        match (p + rng.below(2) as usize) % 2 {
+            0 => {
+                out.push_str(&format!(
+                    "const RWByteAddressBuffer out_buf{p};\n[numthreads(8, 8, 1)]\nvoid CS{p}(uint3 dtid : SV_DispatchThreadID) {{\n{body}out_buf{p}.Store(0, (uint)sink);\n}}\nPipeline P{p}\n{{\n    ComputeShader = CS{p};\n}}\n"
+                ));
+            }
+            _ => {
+                out.push_str(&format!(
+                    "void VS{p}(uint vid : SV_VertexID, out float4 o_pos : SV_Position) {{\n{body}o_pos = float4(sink, 0, 0, 1);\n}}\nfloat4 PS{p}() : SV_Target0 {{\n{body}return float4(sink, 0, 0, 0);\n}}\nPipeline P{p}\n{{\n    VertexShader = VS{p};\n    PixelShader = PS{p};\n}}\n"
+                ));
+            }
+        }
+    }
+    out
+}
+
+fn compiles(src: &str, target: Target, buffer_address: bool) -> Result<(), String> {
+    let fs = crate::plan::snippet_fs(src);
+    let mut t = TaskSpec::compile(0, "test.rssl", target);
+    t.buffer_address = buffer_address;
+    let ex = crate::exec::ExecSpec::single((7, 9), crate::plan::STACK_MAIN, t);
+    let res = crate::exec::run_exec(&ex, std::slice::from_ref(&fs));
+    let r = &res.results[0][0];
+    if r.kind == crate::exec::OutcomeKind::Ok {
+        Ok(())
+    } else {
+        Err(r.text.lines().take(3).collect::<Vec<_>>().join(" | "))
+    }
+}
+
+/// Block kinds the real front end accepts today (fault-free, every target), with notes about
+/// the ones that were dropped
+pub fn valid_kinds() -> &'static (Vec<&'static str>, Vec<String>) {
+    static V: OnceLock<(Vec<&'static str>, Vec<String>)> = OnceLock::new();
+    V.get_or_init(|| {
+        let mut ok = Vec::new();
+        let mut notes = Vec::new();
+        for k in BLOCK_KINDS {
+            let mut good = true;
+            for trial in 0..3u64 {
+                let mut rng = Rng::new(0xB10C).sub_n(k, trial);
+                let src = program(&[k], &mut rng);
+                for (target, ba) in [(Target::Dx, false), (Target::Vk, true), (Target::Msl, false)] {
+                    if *k == "bind_groups" && target != Target::Vk {
+                        continue;
+                    }
+                    if let Err(e) = compiles(&src, target, ba) {
+                        notes.push(format!(
+                            "W2 block '{k}' dropped: does not compile for {} ({e})",
+                            target.name()
+                        ));
+                        good = false;
+                        break;
+                    }
+                }
+                if !good {
+                    break;
+                }
+            }
+            if good {
+                ok.push(*k);
+            }
+        }
+        (ok, notes)
+    })
+}
+
+/// One W2 scenario: a program and the configuration to compile it under
+pub fn scenario(rng: &mut Rng, i: u64) -> (String, FsSpec, TaskSpec) {
+    let (kinds, _) = valid_kinds();
+    let target = [Target::Dx, Target::Vk, Target::Msl, Target::Msl][(i % 4) as usize];
+    let usable: Vec<&str> = kinds
+        .iter()
+        .copied()
+        .filter(|k| *k != "bind_groups" || target == Target::Vk)
+        .collect();
+    let src = if usable.is_empty() {
+        "void CS0() {}\nPipeline P0 { ComputeShader = CS0; }\n".to_string()
+    } else {
+        let n = rng.range(2, 6) as usize;
+        let mut chosen: Vec<&str> = (0..n).map(|_| pick(rng, &usable)).collect();
+        if target == Target::Vk && usable.contains(&"bind_groups") && !chosen.contains(&"bind_groups") {
+            chosen.push("bind_groups");
+        }
+        program(&chosen, &mut rng.sub("program"))
+    };
+    let mut t = TaskSpec::compile(0, "test.rssl", target);
+    t.buffer_address = target == Target::Vk;
+    t.validate_layout = rng.chance(1, 2);
+    match rng.below(6) {
+        0 => t.no_pipeline = true,
+        1 => t.pipeline = Some("P0".into()),
+        _ => {}
+    }
+    (
+        format!("W2:program#{i}@{}", target.name()),
+        crate::plan::snippet_fs(&src),
+        t,
+    )
 }
